@@ -173,8 +173,9 @@ func (p *ProjectRunner) Run() error {
 			p.startMutex.Unlock()
 			break
 		}
-		// a start request may have been served already for this process
-		if p.getRunningProcess(newConf.ReplicaName) == nil {
+		// a start request may have been served already for this process, and
+		// a scale or update request may have removed or renamed it
+		if _, ok := p.getProcessConfig(newConf.ReplicaName); ok && p.getRunningProcess(newConf.ReplicaName) == nil {
 			p.runProcess(&newConf)
 		}
 		p.shutDownMutex.Unlock()
